@@ -7,6 +7,7 @@ MC_Dirs3 == {1, 2, 3}
 MC_Dirs2 == {1, 2}
 
 MC_VChars ==
+    ("2" :> <<"2">>) @@
     ("1.0" :> <<"1", ".", "0">>) @@ ("1.9" :> <<"1", ".", "9">>) @@ ("1.10" :> <<"1", ".", "1", "0">>) @@
     ("2.0" :> <<"2", ".", "0">>) @@ ("1" :> <<"1">>) @@ ("1.x" :> <<"1", ".", "x">>) @@ ("x" :> <<"x">>) @@
     ("1.0.1" :> <<"1", ".", "0", ".", "1">>) @@ ("01.09" :> <<"0", "1", ".", "0", "9">>)
@@ -33,6 +34,11 @@ DiskBad == (1 :> {F("VfA", "1.0", <<D("VfB", "1.0"), D("VfC", "1.0")>>), F("VfA"
 DiskOdd == (1 :> {F("VfA", "1", <<>>), F("VfA", "1.0", <<>>), F("VfA", "1.x", <<>>), F("VfA", "x", <<>>),
                   F("VfB", "1.0.1", <<>>), F("VfB", "x", <<>>)})
         @@ (2 :> {F("VfA", "1.0", <<>>), F("VfA", "01.09", <<>>), F("VfB", "1.x", <<>>)})
+\* numerically EQUAL versions spelled differently in DIFFERENT directories ("1" = "1.0", "2" = "2.0"): the
+\* earliest directory wins among equals, whatever the spelling; "01.09" = "1.9" likewise
+DiskEqual == (1 :> {F("VfA", "1", <<>>), F("VfB", "2.0", <<>>), F("VfC", "1.9", <<>>)})
+          @@ (2 :> {F("VfA", "1.0", <<>>), F("VfB", "2", <<>>), F("VfC", "01.09", <<>>)})
+          @@ (3 :> {F("VfA", "1.0", <<>>), F("VfB", "2", <<>>)})
 \* simulation: everything at once
 DiskAll == (1 :> {F("VfA", "1.9", <<>>), F("VfA", "1.0", <<D("VfB", "1.0"), D("VfC", "1.0")>>)})
         @@ (2 :> {F("VfA", "1.10", <<>>), F("VfA", "1.9", <<>>), F("VfB", "1.0", <<>>), F("VfC", "1.0", <<D("VfB", "1.0")>>),
@@ -83,4 +89,7 @@ MC_DiskDeps == {DiskDeps}
 MC_DiskBad == {DiskBad}
 MC_DiskOdd == {DiskOdd}
 MC_DiskAll == {DiskAll}
+MC_DiskEqual == {DiskEqual}
+MC_EnvE == {<<1, 2, 3>>, <<3, 2, 1>>, <<2>>, <<>>}
+MC_VEq == {"1", "1.0", "2"}
 =============================================================================
